@@ -18,6 +18,7 @@ func init() {
 			"Encode produces exactly the FLV E.4.2/E.4.3 layout (plus the repository's documented Opus extension): no field contributes bits outside its slot (field overlap), the format/codec nibble and " +
 			"frame type are the frame's; Decode, run on that layout with payloads of every length >= 0, accepts it, never indexes out of range and returns every field's own bits and the payload blob; " +
 			"C10.rates - ToHz over codes 0..3 and OpusToHz over 8/12/16/24/48 evaluate (constant folding) to the FLV and Opus frequencies. " +
+			"C10.alias - no []byte result aliases storage that outlives the call (receiver fields, package variables, pooled buffers): an item handed out earlier stays what it was. " +
 			"Not decided: payload bytes as data (an opaque blob shown to pass through untouched).",
 		Assume: []string{"layout tables transcribed from FLV v10 Annex E.4.2/E.4.3 and the Opus extension documented in flv.go", "field domains: SoundRate 2 bits (8/12/16/24/48 only in the Opus rate byte), SoundSize/SoundType 1 bit, FrameType/CodecID 4 bits, composition time 24 bits unsigned"},
 		Run:    runC10,
@@ -39,6 +40,7 @@ func frameField(typ string) func(r abs.Result, field string) (abs.Value, bool) {
 }
 
 func runC10(c *Ctx) {
+	checkOwnsBytes(c, "C10.alias", "flv")
 	checkFreshResult(c, "C10.layout", "flv", "(*audioPackager).Encode", 0)
 	checkFreshResult(c, "C10.layout", "flv", "(videoPackager).Encode", 0)
 	R := c.R
